@@ -205,6 +205,30 @@ class RealA:
             if self.path and os.path.exists(self.path + '.index.prev'):
                 os.remove(self.path + '.index.prev')       # a pre-pack index is another story (C09)
             return 'ok', '\n'.join(pre + ['pack ' + (','.join(hex8(o) for o in keep) or '-')])
+        if c == 'crash':
+            # a crash image with an unfinished tail: the transaction in progress is voted (written with status
+            # 'c'), the file is copied at that moment -- optionally torn inside the tail --, and the storage is
+            # reopened on that image (saved / stale / no index).  Model: abort + reopen.
+            if self.kind != 'file' or self.txn is None or not self.staged:
+                return 'ok', 'begin'
+            s.tpc_vote(self.txn)
+            with open(self.path, 'rb') as f:
+                image = f.read()
+            s.tpc_abort(self.txn)
+            good = os.path.getsize(self.path)
+            self.txn, self.staged = None, {}
+            s.close()
+            if 'torn' in t[1:]:
+                image = image[:good + max(1, (len(image) - good) * 2 // 3)]
+            with open(self.path, 'wb') as f:
+                f.write(image)
+            ix, prev = self.path + '.index', self.path + '.index.prev'
+            if 'noindex' in t[1:] and os.path.exists(ix):
+                os.remove(ix)
+            elif 'stale' in t[1:] and os.path.exists(prev):
+                shutil.copyfile(prev, ix)
+            self.s = FileStorage(self.path)
+            return 'ok', 'abort\nreopen'
         if c == 'reopen':
             if self.kind != 'file':
                 return 'err:Unsupported', op
@@ -237,8 +261,9 @@ def run_real_a(ops, tmp):
     try:
         for op in ops:
             c = op.split()[0]
-            if c == 'reset' or (c == 'reopen' and r.kind == 'file'):
-                issued = set()
+            if c == 'reset' or (c in ('reopen', 'crash') and r.kind == 'file'):
+                if not (c == 'crash' and (r.txn is None or not r.staged)):
+                    issued = set()
             before = None
             if c == 'newoid':
                 before = present_oids(r.s) | set(r.staged)
@@ -340,8 +365,18 @@ def gen_a(rng, kind):
             ops.append('finish')
             ops.append('pack')
             st.update(committed={0} | set(refs), staged=set(), deleted=set(), last=set())
-        elif kind == 'file':
+        elif kind == 'file' and rng.random() < 0.5:
             reopen()
+        elif kind == 'file':
+            # crash between vote and finish (or a torn last transaction), then allocate on the reopened file
+            if not st['staged']:
+                o = rng.choice([rng.randrange(1, 600), max(st['committed'] | {0}) + rng.choice([1, 2, 300])])
+                o = min(o, TOP)
+                ops.append('store %s' % hex8(o))
+                st['staged'].add(o)
+            ops.append('crash' + rng.choice(['', ' torn']) + rng.choice(['', ' noindex', ' stale']))
+            st['staged'] = set()
+            ops.append('newoid')
         else:
             ops.append('newoid')
     ops += ['newoid', 'newoid']
@@ -353,7 +388,7 @@ def nontrivial_a(ops):
     hi = 0
     for op in ops:
         t = op.split()
-        if t[0] == 'reopen':
+        if t[0] in ('reopen', 'crash'):
             return True
         if t[0] == 'newoid':
             hi += 1
@@ -693,29 +728,40 @@ def run_sched_case(rng, tmp, idx, kind, nthreads, per, seed, schedule=None):
             s = sched.Scheduler(seed=seed, schedule=schedule)
             tracer = line_tracer(('new_oid', 'set_max_oid', 'store'))
             results = {}
-            stored = [1000 * (i + 1) for i in range(2)] if kind != 'demo' else []
+            events = []                   # ('i', id) after new_oid returned, ('s', oid) after store returned
+            far = seed % 2 == 0
+            nstores = (2 if far else 4) if kind != 'demo' else 0
+            stored = []
 
             def alloc(name):
                 sys.settrace(tracer)
                 try:
-                    results[name] = [u64(st.new_oid()) for _ in range(per)]
+                    results[name] = []
+                    for _ in range(per):
+                        o = u64(st.new_oid())
+                        results[name].append(o)
+                        events.append(('i', o))
                 finally:
                     sys.settrace(None)
 
             def committer():
                 sys.settrace(tracer)
                 try:
-                    for i, o in enumerate(stored):
+                    for i in range(nstores):
+                        # a record copied in with an id far above, or just above, what has been handed out
+                        o = 1000 * (i + 1) if far else max([x for k, x in events] + [0]) + 2
+                        stored.append(o)
                         t = TransactionMetaData()
                         st.tpc_begin(t, tid_of(10 + i))
                         st.store(p64(o), z64, pickle_refs(o, []), '', t)
+                        events.append(('s', o))
                         st.tpc_vote(t)
                         st.tpc_finish(t)
                 finally:
                     sys.settrace(None)
             for i in range(nthreads):
                 s.spawn('a%d' % i, alloc, 'a%d' % i)
-            if stored:
+            if nstores:
                 s.spawn('c', committer)
             res = s.run(timeout=60)
             st.close()
@@ -728,10 +774,134 @@ def run_sched_case(rng, tmp, idx, kind, nthreads, per, seed, schedule=None):
     if len(set(ids)) != len(ids):
         dup = sorted({o for o in ids if ids.count(o) > 1})
         bad = '%s: concurrent new_oid callers received the same id(s) %s' % (kind, dup[:5])
-    elif set(ids) & set(stored) or (kind == 'demo' and set(ids) & {1, 2, 3}):
-        bad = '%s: an id handed to a concurrent caller identifies a stored object: %s' % (
-            kind, sorted((set(ids) & set(stored)) | (set(ids) & {1, 2, 3})))
+    else:
+        seen_store = set()
+        late = []
+        for k, o in events:
+            if k == 's':
+                seen_store.add(o)
+            elif o in seen_store:
+                late.append(o)
+        if late or (kind == 'demo' and set(ids) & {1, 2, 3}):
+            bad = '%s: an id handed to a concurrent caller identifies an object stored before: %s' % (
+                kind, sorted(set(late) | (set(ids) & {1, 2, 3} if kind == 'demo' else set())))
     return bad, dict(kind=kind, threads=nthreads, per=per, seed=seed, schedule=res['decisions']), len(res['decisions'])
+
+
+def probe_store_race(kind, tmp):
+    """directed: the committer is suspended at the n-th line of store()/set_max_oid() (n = 1, 2, ...) while an
+    allocator thread makes three new_oid calls (if it is blocked by the storage lock the committer goes on
+    after a short wait); the record stored has an oid two above the counter.  [P] the allocator never receives
+    an id twice, nor -- after store() has returned -- the stored oid."""
+    d = os.path.join(tmp, 'sr')
+    bad = None
+    points = 0
+    for n in range(1, 80):
+        shutil.rmtree(d, ignore_errors=True)
+        os.makedirs(d)
+        st = FileStorage(os.path.join(d, 's.fs'), create=True) if kind == 'file' else MappingStorage()
+        got = [u64(st.new_oid()) for _ in range(5)]
+        o = max(got) + 2
+        go, done = threading.Event(), threading.Event()
+        after = []
+        hit = [0, False]
+
+        def allocator():
+            go.wait(10)
+            for _ in range(3):
+                after.append(u64(st.new_oid()))
+            done.set()
+
+        def local(frame, event, arg):
+            if event == 'line':
+                hit[0] += 1
+                if hit[0] == n:
+                    hit[1] = True
+                    go.set()
+                    done.wait(0.05)
+            return local
+
+        def tracer(frame, event, arg):
+            if event == 'call' and frame.f_code.co_name in ('store', 'set_max_oid') \
+                    and '/ZODB/' in frame.f_code.co_filename:
+                return local
+            return None
+        th = threading.Thread(target=allocator)
+        th.start()
+        t = TransactionMetaData()
+        st.tpc_begin(t, tid_of(1))
+        sys.settrace(tracer)
+        try:
+            st.store(p64(o), z64, pickle_refs(1, []), '', t)
+        finally:
+            sys.settrace(None)
+        before_return = list(after)
+        go.set()
+        th.join(10)
+        st.tpc_vote(t)
+        st.tpc_finish(t)
+        later = [u64(st.new_oid()) for _ in range(3)]
+        st.close()
+        ids = got + after + later
+        if len(set(ids)) != len(ids):
+            bad = ('%s: store(oid %d) suspended at its line %d while another thread allocated: ids %s were handed '
+                   'out twice (%s)' % (kind, o, n, sorted({x for x in ids if ids.count(x) > 1}), ids))
+        elif o in after[len(before_return):] + later:
+            bad = '%s: id %d was handed out after a record with that oid had been stored' % (kind, o)
+        if bad or not hit[1]:
+            break
+        points += 1
+    shutil.rmtree(d, ignore_errors=True)
+    return bad, points
+
+
+class HookedChanges(MappingStorage):
+    """a changes storage whose tpc_finish lets another client run first (as one waiting for the disk would)"""
+    before_finish = None
+
+    def tpc_finish(self, transaction, func=lambda tid: None):
+        if self.before_finish is not None:
+            hook, self.before_finish = self.before_finish, None
+            hook()
+        return MappingStorage.tpc_finish(self, transaction, func)
+
+
+def probe_finish_window(tmp):
+    """directed: while client A's tpc_finish is on its way into the changes storage, client B calls new_oid()
+    and its re-draw proposes the id A is just committing.  It must be either still issued or already stored."""
+    draws = SeededDraws(3)
+    DEMO_MODULE.random = draws
+    base = MappingStorage()
+    commit(base, tid_of(1), [(1, z64, 1)])
+    draws.queue = [100]
+    changes = HookedChanges()
+    demo = DemoStorage(base=base, changes=changes)
+    commit(demo, tid_of(2), [(101, z64, 1)])          # a record copied in: occupies the candidate after X
+    x = u64(demo.new_oid())                           # X = 100
+    got = []
+    done = threading.Event()
+
+    def client_b():
+        draws.queue = [x, 5000]
+        got.append(u64(demo.new_oid()))
+        done.set()
+    th = threading.Thread(target=client_b)
+
+    def hook():
+        th.start()
+        done.wait(0.3)                                # B blocked by the storage lock: go on
+    t = TransactionMetaData()
+    demo.tpc_begin(t, tid_of(3))
+    demo.store(p64(x), z64, pickle_refs(1, []), '', t)
+    demo.tpc_vote(t)
+    changes.before_finish = hook
+    demo.tpc_finish(t)
+    th.join(10)
+    demo.close()
+    if got and got[0] == x:
+        return ('DemoStorage: id %d, issued to client A and being committed by its tpc_finish, was handed to '
+                'client B by a concurrent new_oid() (it was neither in the issued set nor loadable)' % x)
+    return None
 
 
 def run_plain_threads(kind, tmp, nthreads=6, per=400):
@@ -900,6 +1070,19 @@ def main(argv=None):
         ck.case(['D', info['kind'], info['threads'], info['per'], info['schedule']], True, None)
         if bad:
             ck.violation('C20:%s-concurrent-new-oid' % kind, bad, dict(section='D', **info))
+    if only is None or only == 'D-probes':
+        for kind in ('file', 'mapping'):
+            bad, points = probe_store_race(kind, ck.tmp)
+            ck.count('D:store-race-suspension-points:' + kind, points)
+            ck.case(['D-store-race', kind, points], True, None)
+            if bad:
+                ck.violation('C20:%s-concurrent-new-oid' % kind, 'store vs allocator: ' + bad,
+                             dict(section='D-probes', probe='store-race', kind=kind))
+        bad = probe_finish_window(ck.tmp)
+        ck.count('D:finish-window-probe')
+        ck.case(['D-finish-window'], True, None)
+        if bad:
+            ck.violation('C20:demo-concurrent-new-oid', bad, dict(section='D-probes', probe='finish-window'))
     if only is None or (only == 'D' and not sched_cases):
         for kind in ('file', 'mapping', 'demo'):
             bad = run_plain_threads(kind, ck.tmp, per=300 if quick else 3000)
